@@ -91,6 +91,8 @@ def gen_case(r: Any, base: int) -> dict:
         t = now + r.randint(-2 * 86400, 2 * 86400) * 1_000_000 + r.randint(0, 999_999)
     elif c == 5:
         t = now - r.randint(0, 3_000_000)
+    elif c == 6:
+        t = now + r.choice([1, 1, 2]) * 86_400_000_000 + r.randint(0, 61_000_000)     # whole days plus a little: must be left for a later poll
     else:
         t = now + r.randint(0, 70_000_000)
     return {"now_us": now, "t": {"us": t, "repr": r.choice(TIME_REPRS + ["fixeds:30", "fixeds:-3599", "fixeds:20700"])}}
